@@ -23,6 +23,15 @@ pub fn f_small(c: bool) -> Vec<u8> { vec![sz(c, 8), 4, 1, 0, 0, 0, 0, 0] }
 pub fn f_unknown(c: bool) -> Vec<u8> { vec![sz(c, 4), 200, 0, 0] }
 pub fn f_badcim(c: bool) -> Vec<u8> { vec![sz(c, 8), 64, 0, 0, 9, 0, 0, 0] }
 pub fn f_mso(c: bool) -> Vec<u8> { vec![sz(c, 12), 11, 0, 0, 0, 0, 0, 0, b'h', b'i', 0, 0] }
+/// frames whose packet parser wants more bytes than the frame announces: the result must not
+/// depend on what happens to be buffered behind them
+pub fn f_short_small(c: bool) -> Vec<u8> { vec![sz(c, 4), 4, 9, 1] }
+pub fn f_mso_no_nul(c: bool) -> Vec<u8> { vec![sz(c, 12), 11, 0, 0, 0, 0, 0, 0, b'a', b'b', b'c', b'd'] }
+pub fn f_mci_overcount(c: bool) -> Vec<u8> {
+    let mut v = vec![sz(c, 32), 38, 0, 3];
+    for i in 0..28 { v.push(i as u8 + 1); }
+    v
+}
 pub fn f_big(c: bool, len: usize, ty: u8) -> Vec<u8> {
     let mut v = vec![sz(c, len), ty, 7, 0];
     for i in 4..len { v.push((i % 251) as u8); }
@@ -81,8 +90,10 @@ pub fn c05_instances(tier: Tier) -> Vec<Instance> {
         let mut alpha: Vec<(&str, Vec<u8>)> = vec![
             ("ka", f_keepalive(c)), ("ping", f_tiny(c, 0, 3)), ("small", f_small(c)),
             ("unk", f_unknown(c)), ("badcim", f_badcim(c)), ("mso", f_mso(c)),
+            ("shortsmall", f_short_small(c)), ("msononul", f_mso_no_nul(c)),
         ];
         if thorough {
+            alpha.push(("mciover", f_mci_overcount(c)));
             alpha.push(("big252", f_big(c, 252, 200)));
             if c { alpha.push(("big1020", f_big(c, 1020, 201))); }
         }
@@ -124,7 +135,7 @@ fn imp_name(i: Impl) -> &'static str {
 
 pub fn c05(tier: Tier, replay: Option<String>) -> i32 {
     finish("C05", tier, replay, c05_instances(tier),
-        "instances = (mode, implementation, inbound frame sequence): all sequences of length <= 3 (quick) / <= 4 (thorough) over {keep-alive, TINY_PING, SMALL, unknown type, undecodable CIM, MSO (+252 B and 1020 B frames)} with EVERY partition of the byte stream into reads (state-merged), <= 1 (2) injected transient errors of 4 kinds, EOF at any point; plus sessions of 9-16 kB (> the 6120-byte buffer) with boundary-relative chunk choices; states merged on (receive buffer bytes, spare capacity, stream position, budgets, suspended side)",
+        "instances = (mode, implementation, inbound frame sequence): all sequences of length <= 3 (quick) / <= 4 (thorough) over {keep-alive, TINY_PING, SMALL, unknown type, undecodable CIM, MSO, SMALL announced as 4 bytes, MSO without terminator (+ MCI claiming more cars than it holds, 252 B and 1020 B frames)} with EVERY partition of the byte stream into reads (state-merged), <= 1 (2) injected transient errors of 4 kinds, EOF at any point; plus sessions of 9-16 kB (> the 6120-byte buffer) with boundary-relative chunk choices; states merged on (receive buffer bytes, spare capacity, stream position, budgets, suspended side)",
         vec![
             "per-frame content expectation is the real codec applied to that frame alone (the codec is judged by C01-C04)".into(),
             "blocking and tokio instances are compared with the same reference read loop, hence with each other".into(),
